@@ -412,35 +412,52 @@ func c01docs(c *ev.Ctx, thorough bool, f func(doc []byte) bool) {
 	if thorough {
 		k = 5
 	}
-	trees := gen.Trees(k, gen.LeavesFull, gen.KeysFull)
+	// the levels below the top one are materialised (they are the building blocks), the top
+	// level - by far the largest - is streamed
+	trees := gen.Trees(k-1, gen.LeavesFull, gen.KeysFull)
 	unit := 100000
-	for sz := 1; sz <= k; sz++ {
-		for ti, t := range trees[sz] {
-			unit++
-			if !c.Mine(unit) {
-				continue
-			}
-			txt := gen.RenderTo(nil, t, (ti%2)*2, nil)
-			if !f(txt) {
-				return
-			}
-			if sz <= 3 {
-				// truncations and single-position token mutants
-				for cut := 1; cut < len(txt); cut++ {
-					if !f(txt[:cut]) {
-						return
-					}
+	one := func(sz, ti int, t *gen.Tree) bool {
+		unit++
+		if !c.Mine(unit) {
+			return true
+		}
+		txt := gen.RenderTo(nil, t, (ti%2)*2, nil)
+		if !f(txt) {
+			return false
+		}
+		if sz <= 3 {
+			// truncations and single-position token mutants
+			for cut := 1; cut < len(txt); cut++ {
+				if !f(txt[:cut]) {
+					return false
 				}
-				for pos := 0; pos < len(txt); pos++ {
-					for _, m := range []string{"", ",", ":", "]", "}", `"`, "1", "x", " "} {
-						mu := append(append(append([]byte{}, txt[:pos]...), m...), txt[pos+1:]...)
-						if !f(mu) {
-							return
-						}
+			}
+			for pos := 0; pos < len(txt); pos++ {
+				for _, m := range []string{"", ",", ":", "]", "}", `"`, "1", "x", " "} {
+					mu := append(append(append([]byte{}, txt[:pos]...), m...), txt[pos+1:]...)
+					if !f(mu) {
+						return false
 					}
 				}
 			}
 		}
+		return true
+	}
+	for sz := 1; sz <= k-1; sz++ {
+		for ti, t := range trees[sz] {
+			if !one(sz, ti, t) {
+				return
+			}
+		}
+	}
+	ti, ok := 0, true
+	gen.ForEachTop(trees, k, gen.KeysFull, func(t *gen.Tree) bool {
+		ok = one(k, ti, t)
+		ti++
+		return ok
+	})
+	if !ok {
+		return
 	}
 	// larger fixed documents aimed at the binding rules
 	for i, s := range c01fixedDocs() {
@@ -479,7 +496,7 @@ func init() {
 			"distinct_nontrivial = distinct (doc,type) pairs accepted by at least one side",
 		Assume: []string{"encoding/json is the reference", "UseInt64 expectation is derived from the reference's UseNumber result by the documented rule"},
 		Run: func(c *ev.Ctx, r *ev.Report) {
-			seen := map[uint64]struct{}{}
+			seen := ev.NewHashSet(29)
 			n := 0
 			c01docs(c, c.Thorough(), func(doc []byte) bool {
 				n++
@@ -509,7 +526,7 @@ func init() {
 						h := fnv.New64a()
 						h.Write(doc)
 						h.Write([]byte(t.Name))
-						seen[h.Sum64()] = struct{}{}
+						seen.Add(h.Sum64())
 					}
 				}
 				if n%20000 == 1 {
@@ -517,7 +534,7 @@ func init() {
 				}
 				return true
 			})
-			r.Distinct = int64(len(seen))
+			r.Distinct = seen.Len()
 			r.SetAdd("destination_types", fmt.Sprint(len(dests)))
 		},
 		Replay: func(c *ev.Ctx, desc json.RawMessage) *ev.Violation {
